@@ -1537,57 +1537,57 @@ def oracle_history(case):
 CLAUSES = [
     Clause('value', oracle_value, g.value_cases, quick=12000, thorough=180000,
            min_share={'nt': 0.3, 'cfg_differ': 0.2, 'enc_xml': 0.15, 'enc_json': 0.15, 'rank3': 0.08, 'rank4': 0.06, 'unit': 0.2,
-                      'error': 0.08, 'kind_i': 0.08, 'nonC': 0.15, 'nonC_nonF': 0.04, 'lay_T': 0.07, 'lay_F': 0.06, 'lay_S': 0.02,
-                      'lay_SF': 0.02, 'lay_X': 0.015, 'error_nonC': 0.03,
+                      'error': 0.08, 'kind_i': 0.08, 'nonC': 0.14, 'nonC_nonF': 0.04, 'lay_T': 0.051, 'lay_F': 0.059, 'lay_S': 0.02,
+                      'lay_SF': 0.02, 'lay_X': 0.015, 'error_nonC': 0.024,
                       # classes carried over from the other properties (half of the smallest share seen at seeds 1, 2)
-                      'caller_in': 0.08, 'caller_out': 0.19, 'decades': 0.075, 'decades_unit': 0.039, 'dt': 0.15, 'dt_float': 0.08, 'dt_int': 0.065,
-                      'dt_limit': 0.03, 'dt_f4': 0.04, 'dt_f2': 0.012, 'dt_bigendian': 0.035, 'dt_unit': 0.06, 'dt_nounit': 0.085, 'readonly': 0.14,
-                      'row_alone': 0.27, 'form_tuple': 0.044},
+                      'caller_in': 0.08, 'caller_out': 0.19, 'decades': 0.075, 'decades_unit': 0.036, 'dt': 0.15, 'dt_float': 0.08, 'dt_int': 0.064,
+                      'dt_limit': 0.028, 'dt_f4': 0.04, 'dt_f2': 0.012, 'dt_bigendian': 0.035, 'dt_unit': 0.054, 'dt_nounit': 0.085, 'readonly': 0.14,
+                      'row_alone': 0.26, 'form_tuple': 0.044},
            desc='uc.model -> (dict | JSON | XML) -> uc.value_unit / error_unit: shape, dtype kind, physical value; write and read '
                 'under different working units; value and error arrays in C / transposed / Fortran / axis-swapped / strided layouts'),
     Clause('box', oracle_box, g.box_cases, quick=3500, thorough=50000,
-           min_share={'nt': 0.2, 'cfg_differ': 0.3, 'origin': 0.2, 'rotated': 0.2, 'fresh': 0.15, 'prior_used': 0.2,
+           min_share={'nt': 0.2, 'cfg_differ': 0.3, 'origin': 0.2, 'rotated': 0.16, 'fresh': 0.15, 'prior_used': 0.2,
                       'prior_cell_differs': 0.25, 'prior_recip': 0.1, 'prior_c2r': 0.1, 'prior_scaled': 0.05, 'in_system': 0.1,
                       'prior_unused': 0.04,
                       # classes carried over from the other properties (half of the smallest share seen at seeds 1, 2)
-                      'caller_in': 0.18, 'caller_out': 0.028, 'lefthanded': 0.21, 'lowertri_neg': 0.145, 'sym': 0.1, 'sym_diag': 0.065, 'sym_perm': 0.034,
-                      'tiny_tilt': 0.068, 'tiny_cleaned': 0.045, 'tiny_1e-9_1e-5': 0.03, 'tiny_1e-5_1e-3': 0.025, 'near_face': 0.32},
+                      'caller_in': 0.17, 'caller_out': 0.028, 'lefthanded': 0.2, 'lowertri_neg': 0.12, 'sym': 0.098, 'sym_diag': 0.062, 'sym_perm': 0.034,
+                      'tiny_tilt': 0.068, 'tiny_cleaned': 0.045, 'tiny_1e-9_1e-5': 0.03, 'tiny_1e-5_1e-3': 0.025, 'near_face': 0.31},
            desc='Box.model(length_unit) -> Box(model=) / Box.model(model=) into a Box (alone or held by a System) that had another '
                 'cell and whose reciprocal vectors / position maps / box-scaled storage were used: cell and origin as physical '
                 'lengths, then reciprocal vectors, both position maps and a box-scaled System.model against own arithmetic'),
     Clause('atoms', oracle_atoms, g.atoms_cases, quick=6500, thorough=100000,
            min_share={'nt': 0.25, 'natoms1': 0.08, 'prop_s': 0.12, 'prop_i': 0.1, 'proprank3': 0.12, 'unit_prop': 0.12, 'subset': 0.05,
-                      'nonC': 0.3, 'pos_nonC': 0.2, 'prop_nonC': 0.18, 'prop_nonC_nounit': 0.1, 'nonC_nonF': 0.12, 'lay_T': 0.15,
-                      'lay_F': 0.13, 'lay_S': 0.06, 'lay_SF': 0.06, 'lay_X': 0.07,
+                      'nonC': 0.3, 'pos_nonC': 0.2, 'prop_nonC': 0.18, 'prop_nonC_nounit': 0.1, 'nonC_nonF': 0.12, 'lay_T': 0.14,
+                      'lay_F': 0.12, 'lay_S': 0.06, 'lay_SF': 0.06, 'lay_X': 0.07,
                       # classes carried over from the other properties (half of the smallest share seen at seeds 1, 2)
-                      'atype_dt': 0.23, 'pos_dt_f4': 0.07, 'prop_dt_float': 0.1, 'prop_dt_int': 0.045, 'dt_bigendian': 0.13, 'dt_limit': 0.019,
+                      'atype_dt': 0.23, 'pos_dt_f4': 0.07, 'prop_dt_float': 0.089, 'prop_dt_int': 0.045, 'dt_bigendian': 0.12, 'dt_limit': 0.019,
                       'prop_decades': 0.019, 'readonly': 0.3, 'caller_in': 0.13, 'caller_out': 0.032, 'keep_kw': 0.04},
            desc='Atoms.model(prop_name/unit | prop_unit | defaults) -> Atoms(model=): every listed property, shapes, dtype kinds, units'),
     Clause('system', oracle_system, g.system_cases, quick=12500, thorough=220000,
            min_share={'nt': 0.25, 'pos_scaled': 0.1, 'scaled_prop': 0.06, 'mass_first_none': 0.04, 'symbols_holes': 0.08,
                       'masses_holes': 0.1, 'route_dump': 0.15, 'route_model': 0.15, 'route_dump_f': 0.04, 'route_dump_path': 0.03,
                       'enc_xml': 0.15, 'cfg_differ': 0.15, 'natoms1': 0.07, 'proprank3': 0.12, 'prop_s': 0.1,
-                      'nonC': 0.3, 'pos_nonC': 0.25, 'prop_nonC': 0.2, 'prop_nonC_nounit': 0.12, 'nonC_nonF': 0.15, 'lay_T': 0.15,
-                      'lay_F': 0.13, 'lay_S': 0.07, 'lay_SF': 0.08, 'lay_X': 0.1,
+                      'nonC': 0.3, 'pos_nonC': 0.25, 'prop_nonC': 0.2, 'prop_nonC_nounit': 0.12, 'nonC_nonF': 0.15, 'lay_T': 0.14,
+                      'lay_F': 0.12, 'lay_S': 0.07, 'lay_SF': 0.08, 'lay_X': 0.084,
                       # classes carried over from the other properties (half of the smallest share seen at seeds 1, 2)
-                      'atype_dt': 0.24, 'pos_dt_f4': 0.08, 'prop_dt_float': 0.09, 'prop_dt_int': 0.044, 'prop_dt_scaled': 0.018, 'dt_limit': 0.022,
-                      'dt_bigendian': 0.139, 'prop_decades': 0.019, 'readonly': 0.32, 'caller_in': 0.146, 'caller_out': 0.026, 'keep_kw': 0.056,
-                      'lefthanded': 0.18, 'lowertri_neg': 0.13, 'sym': 0.09, 'sym_diag': 0.056, 'sym_perm': 0.033, 'tiny_tilt': 0.073,
-                      'tiny_cleaned': 0.048, 'tiny_1e-9_1e-5': 0.035, 'tiny_1e-5_1e-3': 0.024, 'near_face': 0.33},
+                      'atype_dt': 0.24, 'pos_dt_f4': 0.077, 'prop_dt_float': 0.09, 'prop_dt_int': 0.044, 'prop_dt_scaled': 0.018, 'dt_limit': 0.021,
+                      'dt_bigendian': 0.139, 'prop_decades': 0.019, 'readonly': 0.32, 'caller_in': 0.146, 'caller_out': 0.021, 'keep_kw': 0.056,
+                      'lefthanded': 0.18, 'lowertri_neg': 0.12, 'sym': 0.09, 'sym_diag': 0.056, 'sym_perm': 0.033, 'tiny_tilt': 0.064,
+                      'tiny_cleaned': 0.042, 'tiny_1e-9_1e-5': 0.035, 'tiny_1e-5_1e-3': 0.022, 'near_face': 0.33},
            desc='System.model/System(model=) and dump/load system_model (text, stream, path): cell, origin, pbc, symbols, masses, '
                 'every property incl. box-scaled storage, written and read under different working units'),
     Clause('elastic', oracle_elastic, g.elastic_cases, quick=3500, thorough=50000,
            min_share={'nt': 0.35, 'unit': 0.25, 'cfg_differ': 0.3, 'norm_family': 0.25, 'fam_isotropic': 0.05, 'fam_rhombohedral': 0.05,
                       'fam_triclinic': 0.05,
                       # classes carried over from the other properties (half of the smallest share seen at seeds 1, 2)
-                      'near_sym': 0.127, 'near_sym_fine': 0.043, 'near_sym_coarse': 0.084, 'near_sym_cleaned': 0.025, 'relabelled': 0.135,
+                      'near_sym': 0.127, 'near_sym_fine': 0.043, 'near_sym_coarse': 0.084, 'near_sym_cleaned': 0.023, 'relabelled': 0.12,
                       'caller_in': 0.22, 'caller_out': 0.032},
            desc='ElasticConstants.model(unit, crystal_system) -> ElasticConstants(model=) / .model(model=)'),
     Clause('history', oracle_history, g.history_cases, quick=2000, thorough=40000,
            min_share={# classes carried over from the other properties (half of the smallest share seen at seeds 1, 2)
-                      'nt': 0.34, 'ledger': 0.5, 'ledger_mixed': 0.31, 'caller_in': 0.18, 'caller_out_model': 0.15, 'caller_out_object': 0.077,
-                      'read_after_reset': 0.18, 'read_after_caller_in': 0.1, 'rebuild': 0.13, 'reset_units': 0.19, 'recv_existing': 0.067,
-                      'r_system': 0.13, 'r_value': 0.15, 'r_box': 0.06, 'r_elastic': 0.05, 'w_scaled': 0.14},
+                      'nt': 0.34, 'ledger': 0.5, 'ledger_mixed': 0.31, 'caller_in': 0.17, 'caller_out_model': 0.15, 'caller_out_object': 0.074,
+                      'read_after_reset': 0.18, 'read_after_caller_in': 0.1, 'rebuild': 0.1, 'reset_units': 0.19, 'recv_existing': 0.067,
+                      'r_system': 0.13, 'r_value': 0.14, 'r_box': 0.06, 'r_elastic': 0.05, 'w_scaled': 0.13},
            desc='one caller, one process: models of a value, a Box, a System and an ElasticConstants written, read back (new objects and '
                 'existing ones), reset_units in between, the caller overwriting what it handed in and what it was handed out; every '
                 'model and object handed out is judged again bit for bit after every later step, every input after every call'),
